@@ -300,6 +300,15 @@ def k_consistency(facts):
                     ok = isinstance(e, tuple) and e[0] == "call" and last_seg(e[1]["path"]) == "index" and "Direction" in (e[1].get("self", "") + e[1]["path"])
                     if not ok:
                         bad.append((st["line"], "const %s" % e[1] if e[0] == "const" else ("1-k" if e[0] == "bin" else str(e[0]))))
+        # a direction array used as a whole (iter/iter_mut/contains over both slots) inside the per-direction loop
+        for i, j, st in b.stmts():
+            if i not in inloop:
+                continue
+            rv = st["rv"]
+            if rv["k"] in ("ref", "rawptr"):
+                fs = rv["pl"]["p"]
+                if fs and isinstance(fs[-1], dict) and fs[-1].get("n") in ("next", "node") and fs[-1].get("a", "").startswith("graph_impl"):
+                    bad.append((st["line"], "the whole array"))
         if bad:
             r.bad(Violation("DIRIDX-K", b.npath, "k-index", b.file, bad[0][0],
                             "a direction-indexed array is indexed by %s instead of the loop's k = d.index() (lines %s): %s"
